@@ -1,5 +1,6 @@
 //! Port-level workers (whole iceoryx2 stack, `local::Service` and `ipc::Service`).
 mod dom;
+mod drops;
 mod ev;
 mod grow;
 mod ps;
@@ -406,6 +407,7 @@ fn main() {
         "c11c" => rr_concurrent(&args),
         "c05" => ev_campaign(&args),
         "c20" => ws_campaign(&args),
+        "c17" => if args.str("svc", "local") == "ipc" { drops::campaign::<iceoryx2::service::ipc::Service>(&args, "ipc") } else { drops::campaign::<iceoryx2::service::local::Service>(&args, "local") },
         "c08r" => rr_campaign(&args, "C08"),
         "warmup" => return,
         other => {
